@@ -66,7 +66,7 @@ Definition src2_endpoint (getattr_ext : pyval -> pyval -> pyval -> pyval) (type_
    | BErr => PErr
    end)))))).
 
-(* saml2/client_base.py:Base.service_urls, lines 277-282 *)
+(* saml2/client_base.py:Base.service_urls, lines 285-290 *)
 Definition src2_service_urls (getattr_ext : pyval -> pyval -> pyval -> pyval) (type_ext : pyval -> pyval) (v_self : pyval) (v_binding : pyval) : pyval :=
   let v__res := PErr in
   (py_bind (py_bind v_binding (fun a_1 => (src2_endpoint getattr_ext type_ext (p2_attr v_self "config") (PStr "assertion_consumer_service") a_1 (PStr "sp")))) (fun v__res =>
